@@ -3,7 +3,7 @@
 # (first detection wins). Results: /verif/mutation/RESULTS.tsv  (file, k, line, kind, description, verdict).
 export GOFLAGS=-mod=mod GOPROXY=off GOSUMDB=off GOTOOLCHAIN=local
 (cd /verif/tools/mutate && go build -o /tmp/mutate .) || exit 2
-out=/verif/mutation/RESULTS.tsv
+out=${OUT:-/verif/mutation/RESULTS.tsv}
 : > $out
 mkdir -p /tmp/mutseeds; cd /verif
 while IFS="$(printf '\t')" read -r f k line kind desc; do
@@ -21,6 +21,8 @@ while IFS="$(printf '\t')" read -r f k line kind desc; do
     builtin/*) checks="C17 C02";;
     *) checks="C01";;
   esac
+  if [ -n "$FILTER" ] && ! echo "$f" | grep -Eq "$FILTER"; then continue; fi
+  [ -n "$ONLYFIRST" ] && checks=$(echo $checks | cut -d' ' -f1-$ONLYFIRST)
   id="mut-$(echo $f | tr '/.' '__')-$k"
   /tmp/mutate -k $k -o /tmp/mutseeds/m.go /repo/$f
   (cd /repo && diff -u $f /tmp/mutseeds/m.go | sed "1s|.*|--- a/$f|;2s|.*|+++ b/$f|") > /tmp/mutseeds/$id.diff
